@@ -225,6 +225,8 @@ def run(ctx, rep):
     from props import _depfilter
     _depfilter.run(F, rep, "C07")
     fresh_cell_for_new_names_only(F, rep)
+    written_registers_are_reserved(F, rep)
+    supply_matching(F, rep)
     from props import C10 as _c10x
     _c10x.existence_is_asked_function_wide(F, rep, rule="C07.fresh-cell")
     modify_targets_a_capture(F, rep)
@@ -415,6 +417,91 @@ def declarations_supply_what_follows(F, rep, rule="C07.supply-order"):
            key=rule + "|scoped-supplies")
 
 
+def supply_matching(F, rep, rule="C07.supply-match"):
+    """Dependency::eq_allow_callbacks answers whether a supplied name cancels a needed one.  The target of `modify x = ..` is needed as
+    CallbackVariable(T): it names the variable of an *enclosing* function.  A plain local `x: T` of the function the statement stands in is not that
+    variable (cycles_needed == 0: the dependency has not crossed a function boundary) - cancelling it drops x from the function's captures and
+    `store_object` fails ("this function is not a callback"); once the dependency has left its function (cycles_needed > 0) the owner's `x: T` is
+    exactly what it means.  Decided by evaluating the predicate on concrete supplies / dependencies."""
+    import tables
+    from props import _hashkeys
+    from absint import Interp, Variant, Opaque, Int, Str, some
+    f = F.fn("compiler::ast::Dependency::eq_allow_callbacks")
+    ia, da = F.adt("compiler::ast::ident::Ident"), F.adt("compiler::ast::Dependency")
+    if f is None or ia is None or da is None:
+        raise AnchorMissing("Dependency::eq_allow_callbacks / Ident / Dependency")
+    ty = _hashkeys.Types(F)
+
+    def ident(t, tag, name):
+        fields = []
+        for fl in ia["variants"][0]["fields"]:
+            if fl["name"] == "name":
+                fields.append(Str(name))
+            elif "TypeLayout" in fl["ty"] and fl["ty"].startswith("core::option::Option<"):
+                fields.append(some(ty.owned(ty.build(t, tag))))
+            else:
+                fields.append(Opaque(tag + "." + fl["name"]))
+        return Variant("compiler::ast::ident::Ident", 0, ia["variants"][0]["name"], fields)
+
+    def dep(t, cycles, tag, name="x"):
+        vals = {"ident": Variant("alloc::borrow::Cow", 1, "Owned", [ident(t, tag, name)]), "cycles_needed": Int(cycles, "usize")}
+        return Variant("compiler::ast::Dependency", 0, da["variants"][0]["name"], [vals[x["name"]] for x in da["variants"][0]["fields"]])
+    CB = ("Cb", "Int")
+    rows = [("a local `x: int` and the target of `modify x` in the same function", "Int", CB, 0, "x", False),
+            ("the owner's `x: int` and the target of `modify x` of an inner function", "Int", CB, 1, "x", True),
+            ("`x: int` and a plain use of `x: int`", "Int", "Int", 0, "x", True),
+            ("`x: int` and the target of `modify x` where x is a str", "Int", ("Cb", "Str"), 1, "x", False),
+            ("`x: int` and a use of `y: int`", "Int", "Int", 0, "y", False)]
+    n = 0
+    for label, st, dt, cyc, dname, want in rows:
+        ms_ = dict(tables.MODELS)
+        ms_.update(_hashkeys._iter_models())
+        it = Interp(F, models=ms_, max_depth=8, max_paths=512, loop_bound=8)
+        key = "%s|%s|%s|%d|%s" % (rule, _hashkeys.show(st), _hashkeys.show(dt) if not isinstance(dt, tuple) or dt[0] != "Cb" else "captured " + _hashkeys.show(dt[1]), cyc, dname)
+        try:
+            outs = it.run(f, [dep(st, 0, "s"), dep(dt, cyc, "d", dname)])
+            got = set()
+            for o in outs:
+                v = o.value
+                if o.kind == "return" and isinstance(v, Variant) and v.name == "Ok" and hasattr(v.fields[0], "v"):
+                    got.add(bool(v.fields[0].v))
+                else:
+                    got.add("?")
+        except (ValueError, KeyError):
+            got = {"?"}
+        inst = "supply / dependency: %s -> %s" % (label, "cancels" if want else "does not cancel")
+        if it.exhausted or "?" in got or len(got) != 1:
+            rep.ob(rule, inst, "undecided", "not evaluated: %s" % sorted(map(str, got)), f.span, fn=f.path, key=key)
+            continue
+        n += 1
+        g = got.pop()
+        rep.ob(rule, inst, "ok" if g == want else "violated",
+               "" if g == want else ("eq_allow_callbacks answers %s: `reset = fn() { x = 0  modify x = 5 }` no longer captures the outer x - store_object fails at run time, "
+                                     "the owner never sees the update" % g), f.span, fn=f.path, key=key)
+    rep.floor(rule + " evaluations", n, 4)
+
+
+RESERVED = []
+
+
+def written_registers_are_reserved(F, rep, rule="C07.fresh-cell"):
+    """(collected while fresh_cell_for_new_names_only walks the store_fast emissions)"""
+    seen = set()
+    n = 0
+    for f, span, made in RESERVED:
+        k = (f.path, span)
+        if k in seen:
+            continue
+        seen.add(k)
+        n += 1
+        rep.ob(rule, "%s writes a temporary register that was reserved from the counter" % mir.short(f.path), "violated" if made else "ok",
+               ("the register comes from %s: nothing keeps another live value out of that slot (`a.deposit(b.amount(), 2)`: the inner call's receiver overwrites "
+                "the outer one, and the outer method runs on the wrong object)" % made) if made else "", span, fn=f.path,
+               key="%s|reserved-register|%s|%d" % (rule, mir.short(f.path), sum(1 for x in seen if x[0] == f.path)))
+    rep.floor(rule + " store_fast emissions into temporary registers", n, 10)
+    del RESERVED[:]
+
+
 def fresh_cell_for_new_names_only(F, rep):
     """`store_fast n` binds the name n to a *new* cell in the current frame; a function that captured n earlier keeps the old cell and no longer
     sees what the owner assigns.  So wherever the compiler emits store_fast with an operand that can spell a program variable, the name must be
@@ -448,6 +535,13 @@ def fresh_cell_for_new_names_only(F, rep):
                     seen.add(s2)
                     dq.append(s2)
         for ty, l in ops:
+            if "TemporaryRegister" in ty and l is not None:
+                # a register that is written is a register that was reserved: it comes from the counter (poll_temporary_register / _ghost), never from a
+                # number the generator made up (TemporaryRegister::new_ghost_register reserves nothing: two live values can be given one slot)
+                oc = rules.origin_calls(f, l, transparent=rules.TRANSPARENT | {rules.TRY_BRANCH, "core::option::Option::unwrap", "core::option::Option::expect"})
+                made = sorted({mir.short(x.callee()) for x in oc if x.matches("compiler::ast::TemporaryRegister::new_ghost_register")})
+                RESERVED.append((f, span, made))
+                continue
             if "TemporaryRegister" in ty or "CompiledFunctionId" in ty:
                 continue
             label = "%s emits store_fast <%s>" % (mir.short(f.path), ty.split("::")[-1])
